@@ -1245,6 +1245,7 @@ class C12(Property):
         "hands back the context it was given (default settings: no tabindex counter)",
     ]
     assumptions = [
+        "markup_wrapper is always the default Markup class: Generator.begin/end/set call self['markup_wrapper']('') AFTER the mutation, so with a non-callable wrapper a 'rejected' settings call leaves its effect behind; the models have no such call, and failed_settings_call_keeps_generator / rejected_call_preserves_rendering are statements about generators whose wrapper is callable",
         "one whole-Array bind per case at most (its repr-style display text is an input of the model)",
         "Array members are String elements; List members share one member schema",
         "the browser is html.parser + the successful-control rule + two HTML-parser/WHATWG details (one LF dropped after "
